@@ -379,11 +379,14 @@ Expect(c) ==
     [] op = "ragged_slice" -> RaggedSlice(c[2], c[3], c[4])
     [] op = "col" -> Col(c[2], c[3], c[4])
     \* 64-bit row totals / running totals of an array whose values are 16-bit limbs: exact modulo 2^64 (NpVal!WideSum)
-    [] op = "wreduce" -> IF DT(c[3]) \notin {"i8", "u8"} \/ ~WideFits(FlatOf(c[3]), DT(c[3]))
-                            \/ \E r \in DOMAIN Rows(c[3]) : \E i \in DOMAIN Rows(c[3])[r] : ~WideFits(SubSeq(Rows(c[3])[r], 1, i), DT(c[3])) THEN UNSPEC
+    [] op = "wreduce" -> IF DT(c[3]) \notin {"i8", "u8"} THEN UNSPEC
+                         ELSE IF c[2] \in {"sum", "cumsum", "total"} /\ (~WideFits(FlatOf(c[3]), DT(c[3]))
+                            \/ \E r \in DOMAIN Rows(c[3]) : \E i \in DOMAIN Rows(c[3])[r] : ~WideFits(SubSeq(Rows(c[3])[r], 1, i), DT(c[3]))) THEN UNSPEC
                          ELSE IF c[2] = "sum" THEN <<"flat", DT(c[3]), MapRows(Rows(c[3]), LAMBDA q : WideSum(q))>>
                          ELSE IF c[2] = "cumsum" THEN <<"ragged", DT(c[3]), MapRows(Rows(c[3]), LAMBDA q : [i \in DOMAIN q |-> WideSum(SubSeq(q, 1, i))])>>
                          ELSE IF c[2] = "total" THEN <<"scalar", DT(c[3]), WideSum(FlatOf(c[3]))>>
+                         ELSE IF c[2] = "sort" THEN <<"ragged", DT(c[3]), MapRows(Rows(c[3]), LAMBDA q : WideSort(DT(c[3]), q))>>
+                         ELSE IF c[2] = "unique" THEN <<"ragged", DT(c[3]), MapRows(Rows(c[3]), LAMBDA q : LET u == WideUnique(DT(c[3]), q) IN [i \in DOMAIN u |-> u[i][1]])>>
                          ELSE UNSPEC
     [] OTHER -> UNSPEC
 =======================================================================
